@@ -582,6 +582,9 @@ func classify(c Case) (bool, []string) {
 	interleavedMsgs := 0
 	for i := range c.Streams {
 		s := &c.Streams[i]
+		if s.ID >= 16 && len(s.Sizes) > 0 {
+			cl["stream>=16"] = true
+		}
 		for _, z := range s.Sizes {
 			if z == 0 {
 				cl["header-only-message"] = true
@@ -820,7 +823,8 @@ func genCase(t *rapid.T) Case {
 	default:
 		n = rapid.IntRange(9, 16).Draw(t, "streams")
 	}
-	ids := rapid.Permutation([]uint16{0, 1, 2, 3, 4, 5, 6, 7, 8, 9, 10, 11, 12, 13, 14, 15}).Draw(t, "ids")[:n]
+	// stream numbers: mostly small, some at and beyond what a default association negotiates
+	ids := rapid.Permutation([]uint16{0, 1, 2, 3, 4, 5, 6, 7, 8, 9, 10, 11, 12, 13, 14, 15, 16, 17, 20, 21, 100, 65535}).Draw(t, "ids")[:n]
 	maxMsgs := 6
 	if n > 8 {
 		maxMsgs = 3
